@@ -47,6 +47,8 @@ from bounded.reftree import (
 
 MODULE = "checks.bounded_C12"
 DEPTH = 6
+ORACLE_RUNS_EXPAND = 600   # cap on enumerated decision sequences per tree
+ORACLE_RUNS_MUTATE = 2500
 
 EXTRA_GRAMMARS: Dict[str, Dict[str, List[str]]] = {
     "allnull": {"<start>": ["<A><B>"], "<A>": ["", "a"], "<B>": ["", "b<B>"]},
@@ -396,7 +398,9 @@ def run(rep, tier, seed):
               f"(grammar, root) spread evenly over the enumeration; closed trees for mutate: "
               f"<= max(ENUM_NODES, 9) nodes, at most {cap_closed} per grammar")
     rep.bound(f"random choices: seeds {seeds}; thorough tier: choice oracle enumerating the first "
-              f"{DEPTH} decisions depth-first (at most 300 runs per tree)")
+              f"{DEPTH} decisions depth-first (at most {ORACLE_RUNS_EXPAND} runs per open tree, "
+              f"{ORACLE_RUNS_MUTATE} per closed tree; sections.*-oracle.oracle_exhausted counts the trees "
+              f"whose decision tree was enumerated completely)")
     rep.bound(f"grammars: {len(BG.GRAMMARS)} shared, {len(EXTRA_GRAMMARS)} extra recursive/nullable, "
               f"{n_random} random")
 
@@ -431,8 +435,8 @@ def run(rep, tier, seed):
                                       structs=[struct_json(s) for s in structs[i:i + 20]], plans=plans))
                 if not quick and root == start and style == "child":
                     sub = _spread(structs, 30)
-                    plans_o = [("expand", "GrammarFuzzer", seeds[:1], 0, True, 300),
-                               ("expand", "GrammarCoverageFuzzer", seeds[:1], 0, True, 300)]
+                    plans_o = [("expand", "GrammarFuzzer", seeds[:1], 0, True, ORACLE_RUNS_EXPAND),
+                               ("expand", "GrammarCoverageFuzzer", seeds[:1], 0, True, ORACLE_RUNS_EXPAND)]
                     for i in range(0, len(sub), 5):
                         tasks.append(dict(gname=name, grammar=g, family="expand-oracle",
                                           structs=[struct_json(s) for s in sub[i:i + 5]], plans=plans_o))
@@ -446,11 +450,11 @@ def run(rep, tier, seed):
             tasks.append(dict(gname=name, grammar=g, family="mutate",
                               structs=[struct_json(s) for s in closed[i:i + 10]], plans=plans))
         if not quick:
-            sub = _spread(closed, 10)
-            for i in range(0, len(sub), 2):
+            sub = _spread(closed, 4)
+            for i in range(0, len(sub), 1):
                 tasks.append(dict(gname=name, grammar=g, family="mutate-oracle",
-                                  structs=[struct_json(s) for s in sub[i:i + 2]],
-                                  plans=[("mutate", "Mutator", seeds[:1], 0, True, 300)]))
+                                  structs=[struct_json(s) for s in sub[i:i + 1]],
+                                  plans=[("mutate", "Mutator", seeds[:1], 0, True, ORACLE_RUNS_MUTATE)]))
 
     counts: Dict[str, Dict[str, int]] = {}
     all_fails: List[dict] = []
